@@ -6,8 +6,6 @@ from vlib import strings as S
 
 ID = "C01"
 PROP_FILE = "Props/C01.v"
-THEOREMS = ["C01_sound_complete", "C01_fallthrough", "C01_disabled_never", "C01_first_match", "C01_try_from_agrees",
-            "C01_nonvacuous"]
 RULE = ("definitions: regression + systematic (kind x {no attr, to_string, 1-3 serialize, both} x variant flag {none,true,false} "
         "x enum flag x serialize_all) + seeded random enums (0-8 variants, disabled / default / default_with / generics / custom "
         "error), admitted only when the model's NonOverlap predicate holds; inputs per definition are derived from its own "
